@@ -329,6 +329,14 @@ def payloads(draw, depth=0):
         return draw(st.dictionaries(st.sampled_from(["x", "y", "z"]), payloads(depth + 1), max_size=3))
     d = draw(st.dictionaries(st.sampled_from(["x", "y", "z"]), payloads(depth + 1), max_size=2))
     d["__jsonclass__"] = draw(good_desc if kind == "good" else bad_desc)
+    if depth < 3 and draw(st.integers(0, 3)) == 0:
+        # constructor arguments that are structures themselves, descriptors included
+        inner = draw(payloads(depth + 1))
+        if kind == "good":
+            d["__jsonclass__"] = draw(st.sampled_from([["verif_c15mod.Picky", [inner]], ["verif_c15mod.Picky", {"only": inner}]]))
+        else:
+            d["__jsonclass__"] = draw(st.sampled_from([["verif_c15mod.Picky", [inner, inner]], ["verif_c15mod.Picky", {"only": inner, "nope": 1}],
+                                                       ["verif_c15mod.A", [inner]], ["verif_c15mod.Missing", {"only": inner}]]))
     if draw(st.booleans()):
         d = dict(reversed(list(d.items())))
     return d
@@ -347,6 +355,9 @@ def count_desc(p, good=None):
                 if below_good:
                     n[1] += 1
                 below_good = True
+                desc = v["__jsonclass__"]
+                if isinstance(desc, list) and len(desc) > 1:
+                    walk(desc[1], True)
             for k, x in v.items():
                 if k != "__jsonclass__":
                     walk(x, below_good)
@@ -376,7 +387,7 @@ def oracle_failure(case):
 @st.composite
 def dump_failure_cases(draw):
     # positions at which an object with a raising serialisation method sits
-    return draw(st.recursive(st.sampled_from(["BAD", "BAD", 1, "s", None]),
+    return draw(st.recursive(st.sampled_from(["BAD", "BAD", 1, "s", None, "CYCLE"]),
                              lambda c: st.one_of(st.lists(c, max_size=3), st.lists(c, max_size=3).map(tuple), st.dictionaries(st.sampled_from(["a", "b"]), c, max_size=2)),
                              max_leaves=6))
 
@@ -384,27 +395,81 @@ def dump_failure_cases(draw):
 def oracle_dump_failure(case):
     mod = ensure_module()
     jc = JC()
+    bad = []
 
-    def build(v):
+    def build(v, root):
         if isinstance(v, str) and v == "BAD":
-            return mod.BadSerialize()
+            bad.append(mod.BadSerialize())
+            return bad[-1]
+        if isinstance(v, str) and v == "CYCLE":
+            # a member that is the enclosing top-level container itself
+            if root is None:
+                return 0
+            bad.append(root)
+            return root
         if isinstance(v, list):
-            return [build(x) for x in v]
+            out = []
+            out.extend(build(x, root if root is not None else out) for x in v)
+            return out
         if isinstance(v, tuple):
-            return tuple(build(x) for x in v)
+            return tuple(build(x, root) for x in v)
         if isinstance(v, dict):
-            return {k: build(x) for k, x in v.items()}
+            out = {}
+            for k, x in v.items():
+                out[k] = build(x, root if root is not None else out)
+            return out
         return v
-    obj = build(case)
-    before = snap(obj)
+    obj = build(case, None)
+    cyclic = any(not isinstance(b, mod.BadSerialize) for b in bad)
+    before = None if cyclic else snap(obj)
     try:
         jc.dump(obj)
         ok = True
     except Exception:
         ok = False
-    if snap(obj) != before:
+    if not cyclic and snap(obj) != before:
         fail("C15/dump-mutated-argument", "dump modified its argument (%s)" % ("success" if ok else "failure"), repr(case))
-    return Info(nt=not ok, classes=["dump:" + ("ok" if ok else "failed")], sample=repr(case)[:200])
+
+    # history: the failure must leave nothing behind.  The same container objects, once their
+    # offending members are replaced in place, are plain data and dump as such.
+    def offending(x, stack):
+        if isinstance(x, mod.BadSerialize):
+            return True
+        return any(x is a for a in stack)      # a container met again below itself
+
+    def repair(v, stack=()):
+        stack = stack + (v,)
+        if isinstance(v, list):
+            for i, x in enumerate(v):
+                v[i] = 0 if offending(x, stack) else repair(x, stack)
+            return v
+        if isinstance(v, dict):
+            for k in list(v):
+                v[k] = 0 if offending(v[k], stack) else repair(v[k], stack)
+            return v
+        if isinstance(v, tuple):
+            return tuple(0 if offending(x, stack) else repair(x, stack) for x in v)
+        return v
+
+    def expected(v):
+        if isinstance(v, str) and v in ("BAD", "CYCLE"):
+            return 0
+        if isinstance(v, (list, tuple)):
+            return [expected(x) for x in v]
+        if isinstance(v, dict):
+            return {k: expected(x) for k, x in v.items()}
+        return v
+    if isinstance(obj, (list, dict, tuple)):
+        fixed = repair(obj)
+        try:
+            again = jc.dump(fixed)
+        except Exception as ex:
+            fail("C15/dump-after-%s:%s" % ("failure" if not ok else "success", type(ex).__name__),
+                 "after a dump that %s, the same containers holding plain data cannot be dumped: %s" % ("failed" if not ok else "succeeded", ex), repr(case))
+        if snap_noid(again) != snap_noid(expected(case)):
+            fail("C15/dump-after-failure-differs", "after a failed dump, dump of the repaired containers gave %r" % (again,), repr(case))
+    return Info(nt=not ok, classes=["dump:" + ("ok" if ok else "failed")] + (["cyclic-input"] if cyclic else []) + (["repaired-and-dumped-again"] if not ok else []),
+                sample=repr(case)[:200])
 
 
 SHARED_VALUES = [
